@@ -56,6 +56,43 @@ func goldilocksAdapter() *adapter {
 	ad.mul = func(k *big.Int, p pt) pt { return c.ScalarMult(gScalar(k), p.(*goldilocks.Point)) }
 	ad.mulgen = func(k *big.Int) pt { return c.ScalarBaseMult(gScalar(k)) }
 	ad.combined = func(m, n *big.Int, q pt) pt { return c.CombinedMult(gScalar(m), gScalar(n), q.(*goldilocks.Point)) }
+	ad.observers = []observer{
+		// ToAffine / ToBytes / MarshalBinary normalise the object in place
+		{"ToAffine", func(p, q pt) string {
+			x, y := p.(*goldilocks.Point).ToAffine()
+			return xyStr(vlib.FromLE(x[:]), vlib.FromLE(y[:]))
+		}, wantEnc},
+		{"MarshalBinary+FromBytes", func(p, q pt) string {
+			b, err := p.(*goldilocks.Point).MarshalBinary()
+			if err != nil {
+				return err.Error()
+			}
+			P, err := goldilocks.FromBytes(b)
+			if err != nil {
+				return err.Error()
+			}
+			return ad.enc(P)
+		}, wantEnc},
+		{"ToBytes", func(p, q pt) string {
+			var b [57]byte
+			if err := p.(*goldilocks.Point).ToBytes(b[:]); err != nil {
+				return err.Error()
+			}
+			return hex.EncodeToString(b[:])
+		}, func(ad *adapter, a, b *big.Int) string {
+			return hex.EncodeToString(curves.EdEncode(ref, ref.MulG(a), 57))
+		}},
+		{"IsIdentity", func(p, q pt) string { return fmt.Sprint(p.(*goldilocks.Point).IsIdentity()) }, wantId},
+		{"IsEqual", func(p, q pt) string { return fmt.Sprint(p.(*goldilocks.Point).IsEqual(q.(*goldilocks.Point))) }, wantEq},
+		{"IsOnCurve", func(p, q pt) string { return fmt.Sprint(c.IsOnCurve(p.(*goldilocks.Point))) }, wantTrue},
+		{"String", func(p, q pt) string { _ = fmt.Sprint(p); return "true" }, wantTrue},
+		{"used-as-operand", func(p, q pt) string {
+			_ = c.Add(p.(*goldilocks.Point), q.(*goldilocks.Point))
+			_ = c.Double(p.(*goldilocks.Point))
+			_ = c.ScalarMult(gScalar(big.NewInt(7)), p.(*goldilocks.Point))
+			return "true"
+		}, wantTrue},
+	}
 	ad.isEqual = func(p, q pt) bool { return p.(*goldilocks.Point).IsEqual(q.(*goldilocks.Point)) }
 	ad.isIdentity = func(p pt) bool { return p.(*goldilocks.Point).IsIdentity() }
 	ad.aliasOps = []aliasOp{
@@ -277,6 +314,26 @@ func fourqAdapter() *adapter {
 	ad.mul = func(k *big.Int, p pt) pt { var R fourq.Point; R.ScalarMult(fqScalar(k), p.(*fourq.Point)); return &R }
 	ad.mulgen = func(k *big.Int) pt { var R fourq.Point; R.ScalarBaseMult(fqScalar(k)); return &R }
 	ad.isIdentity = func(p pt) bool { return p.(*fourq.Point).IsIdentity() }
+	ad.observers = []observer{
+		{"Marshal+Unmarshal", func(p, q pt) string {
+			var b [fourq.Size]byte
+			p.(*fourq.Point).Marshal(&b)
+			var U fourq.Point
+			if !U.Unmarshal(&b) {
+				return "unmarshal failed"
+			}
+			return fqEnc(&U)
+		}, wantEnc},
+		{"IsIdentity", func(p, q pt) string { return fmt.Sprint(p.(*fourq.Point).IsIdentity()) }, wantId},
+		{"IsOnCurve", func(p, q pt) string { return fmt.Sprint(p.(*fourq.Point).IsOnCurve()) }, wantTrue},
+		{"String", func(p, q pt) string { _ = fmt.Sprint(p); return "true" }, wantTrue},
+		{"used-as-operand", func(p, q pt) string {
+			var R fourq.Point
+			R.Add(p.(*fourq.Point), q.(*fourq.Point))
+			R.ScalarMult(fqScalar(big.NewInt(7)), p.(*fourq.Point))
+			return "true"
+		}, wantTrue},
+	}
 	k392 := func(a, b, k *big.Int) *big.Int { e := new(big.Int).Mul(a, k); return e.Mul(e, big.NewInt(392)) }
 	ad.aliasOps = []aliasOp{
 		{"P.Add(P,Q)", func(P, Q pt, k *big.Int) pt { p := P.(*fourq.Point); p.Add(p, Q.(*fourq.Point)); return p }, expSum},
@@ -420,6 +477,27 @@ func ristrettoAdapter() *adapter {
 	ad.neg = func(p pt) pt { return g.NewElement().Neg(p.(group.Element)) }
 	ad.mul = func(k *big.Int, p pt) pt { return g.NewElement().Mul(p.(group.Element), sc(k)) }
 	ad.mulgen = func(k *big.Int) pt { return g.NewElement().MulGen(sc(k)) }
+	ad.observers = []observer{
+		{"MarshalBinary", func(p, q pt) string { b, _ := p.(group.Element).MarshalBinary(); return hex.EncodeToString(b) }, wantEnc},
+		{"MarshalBinaryCompress+Unmarshal", func(p, q pt) string {
+			b, _ := p.(group.Element).MarshalBinaryCompress()
+			e := g.NewElement()
+			if err := e.UnmarshalBinary(b); err != nil {
+				return err.Error()
+			}
+			return ad.enc(e)
+		}, wantEnc},
+		{"IsIdentity", func(p, q pt) string { return fmt.Sprint(p.(group.Element).IsIdentity()) }, wantId},
+		{"IsEqual", func(p, q pt) string { return fmt.Sprint(p.(group.Element).IsEqual(q.(group.Element))) }, wantEq},
+		{"Copy", func(p, q pt) string { return ad.enc(p.(group.Element).Copy()) }, wantEnc},
+		{"String", func(p, q pt) string { _ = fmt.Sprint(p); return "true" }, wantTrue},
+		{"used-as-operand", func(p, q pt) string {
+			_ = g.NewElement().Add(p.(group.Element), q.(group.Element))
+			_ = g.NewElement().Dbl(p.(group.Element))
+			_ = g.NewElement().Neg(p.(group.Element))
+			return "true"
+		}, wantTrue},
+	}
 	ad.isEqual = func(p, q pt) bool { return p.(group.Element).IsEqual(q.(group.Element)) }
 	ad.isIdentity = func(p pt) bool { return p.(group.Element).IsIdentity() }
 	ad.aliasOps = []aliasOp{
